@@ -45,7 +45,7 @@ func GenFaultRules(t *rapid.T, label string) []FaultRule {
 }
 
 // ShimGenNote describes what every GenShimCase history draws besides its operations.
-const ShimGenNote = " A third of the sign operations name their target as an *agent.Key (format and blob, as a listing hands it out) instead of a parsed object. Signatures are also asked of signers the caller kept from an earlier Signers() call of the same history (operation signheld; judged like any other signature). Half of the histories have a focus certificate named by two thirds of their certificate-bound operations (so that one certificate is added upstream, registered in memory, signed with and removed in one history). Every history draws 1..6 certificates (a sixth of the later ones a twin of an earlier one: same key, serial, type and KeyID, other principals) and the shim's listing-order option PubKeyComp (default, by bytes, by type, by fingerprint)."
+const ShimGenNote = " A third of the sign operations name their target as an *agent.Key (format and blob, as a listing hands it out) instead of a parsed object. Signatures are also asked of signers the caller kept from an earlier Signers() call of the same history (operation signheld; judged like any other signature). Half of the histories have a focus certificate named by two thirds of their certificate-bound operations (so that one certificate is added upstream, registered in memory, signed with and removed in one history). Replies of raw forwards and extension calls are kept by the caller and must read the same after every later forward / extension call of the history (what was handed out is not rewritten). Every history draws 1..6 certificates (a sixth of the later ones a twin of an earlier one: same key, serial, type and KeyID, other principals) and the shim's listing-order option PubKeyComp (default, by bytes, by type, by fingerprint)."
 
 // GenShimCase draws a shim history.
 func GenShimCase(t *rapid.T, pr ShimProfile) ShimCase {
